@@ -72,8 +72,8 @@ pub fn all() -> Vec<PropDef> {
     v.push(PropDef {
         miri: None,
         id: "C06", level: "exploration", driver: "D1 caller-schedule simulator (configurations)",
-        scens: vec![s("bound", d1req::c06, 180_000, 5_000_000)],
-        rule: "each run = one configured buffer size (0..64 dense, residues around 4 KiB/8 KiB/64 KiB/1 MiB, random to 70000) with a preamble whose critical pair has name+value = B-13 (asserted to parse), B-12..B-8 (recorded) or > B (must end in StuckOnInput or parse), under seeded chunking incl. exact-fill reads; after every parse() with done == false the input buffer must be non-empty; effective size checked against max(24, ceil8(size)) on a 20-value slice per run",
+        scens: vec![s("bound", d1req::c06, 180_000, 5_000_000), s("chain_handoff", d1stream::c05, 45_000, 1_500_000)],
+        rule: "each run = one configured buffer size (0..64 dense, residues around 4 KiB/8 KiB/64 KiB/1 MiB, random to 70000) with a preamble whose critical pair has name+value = B-13 (asserted to parse), B-12..B-8 (recorded) or > B (must end in StuckOnInput or parse), under seeded chunking incl. exact-fill reads; after every parse() with done == false the input buffer must be non-empty; effective size checked against max(24, ceil8(size)) on a 20-value slice per run; chain_handoff: the C05 conversion chain, in which request parsers start from an inherited buffer (incl. a completely full one) and the same non-empty-buffer invariant is checked after every parse()",
         assumptions: vec![],
         real: REAL_SYNC.to_vec(), stub: STUB_SYNC.to_vec(),
     });
@@ -149,7 +149,7 @@ pub fn all() -> Vec<PropDef> {
     v.push(PropDef {
         miri: None,
         id: "C12", level: "fault_enumeration", driver: "D2 deterministic executor + fault-injecting transport",
-        scens: vec![s("faults", d2::c12, 300, 30_000), s("hostile_traffic", d2::c12_hostile, 60_000, 2_000_000)],
+        scens: vec![s("faults", d2::c12, 200, 20_000), s("hostile_traffic", d2::c12_hostile, 60_000, 2_000_000)],
         rule: "each run = one seeded scripted connection (1..2 requests, chunking, handler that propagates I/O errors) executed fault-free, then re-executed from the same choice list once per fault point: EOF at EVERY input byte offset 0..N, a read error at EVERY read-call index, a one-shot write error and a one-shot zero-length write at EVERY write-call index (stride > 1 only beyond 400 points per kind); evaluations counts outer scripts, faults_fired counts the inner runs; non-trivial = every run (each contains hundreds of fault points); hostile_traffic: the script's bytes passed through 1..3 structured mutations (version/type/length/padding/id flips, truncation, splices, huge name-value lengths, BeginRequest with wrong length / id 0 / unknown role) or replaced by random bytes, sent without gating and followed by end-of-file: the task must terminate without panic or spinning and its output must be complete well-formed server records",
         assumptions: vec!["handlers propagate I/O errors (the statement's condition for the write clauses)"],
         real: REAL_ASYNC.to_vec(), stub: STUB_ASYNC.to_vec(),
